@@ -5,6 +5,7 @@
   ./check selftest mutants [Cxx ...]       source mutants in a scratch copy of the repository:
                                             the property's quick check must report a violation
   ./check selftest seeded [id ...]         the kept sub-agent changes under seeded/<id>/patch.diff
+  ./check selftest benign [name|Cxx ...] [--all-props]   behaviour-preserving edits (benign/*.diff) must stay quiet
 """
 from __future__ import annotations
 
@@ -388,6 +389,46 @@ def cmd_seeded(args, home):
     return rc_all
 
 
+def cmd_benign(args, home):
+    """Behaviour-preserving edits of the anchored code (benign/<Cxx>_<name>.diff): the check of the property
+    must stay quiet (exit 0) on every one of them.  `--all-props` runs all six checks on each edit."""
+    root = os.path.join(home, "benign")
+    names = sorted(f[:-5] for f in os.listdir(root) if f.endswith(".diff")) if os.path.isdir(root) else []
+    only = [a for a in args if not a.startswith("--")]
+    allp = "--all-props" in args
+    rc_all = 0
+    results = []
+    for name in names:
+        if only and name not in only and name[:3] not in only:
+            continue
+        base, dst = make_scratch()
+        try:
+            err = apply_mutant(dst, {"kind": "patch", "path": os.path.join(root, name + ".diff")})
+            if err:
+                print(f"[{name}] NOT APPLIED: {err}")
+                results.append({"edit": name, "status": "not-applied"})
+                rc_all = 1
+                continue
+            for prop in (PROPS if allp else [name[:3]]):
+                env = dict(os.environ, VERIF_REPO=dst, VERIF_HOME=home)
+                t1 = time.time()
+                rc, out, errtxt = _run([os.path.join(home, "check"), prop, "--tier", "quick", "--no-cross",
+                                        "--no-evidence"], env=env)
+                viol = [ln for ln in out.splitlines() if ln.startswith(("violation:", "HARNESS-ERROR"))]
+                status = "quiet" if rc == 0 and "VIOLATION" not in out else (
+                    "harness-error" if rc == 2 else "false-alarm")
+                print(f"[{name}] {prop}: {status.upper()} (exit {rc}, {time.time() - t1:.0f}s) "
+                      f"{viol[0][:220] if viol else ''}", flush=True)
+                results.append({"edit": name, "property": prop, "status": status, "first_line": viol[:1]})
+                if status != "quiet":
+                    rc_all = 1
+        finally:
+            shutil.rmtree(base, ignore_errors=True)
+    json.dump({"what": "behaviour-preserving edits: the checks must stay quiet", "results": results},
+              open(os.path.join(home, "evidence", "selftest_benign.json"), "w"), indent=1)
+    return rc_all
+
+
 def main(argv, home):
     if not argv:
         print(__doc__)
@@ -396,6 +437,8 @@ def main(argv, home):
         return cmd_mutants(argv[1:], home)
     if argv[0] == "determinism":
         return cmd_determinism(argv[1:], home)
+    if argv[0] == "benign":
+        return cmd_benign(argv[1:], home)
     if argv[0] == "seeded":
         return cmd_seeded(argv[1:], home)
     print(__doc__)
